@@ -774,6 +774,45 @@ func TestVerifC10(t *testing.T) {
 	rng := r.Rng
 
 	// 0. isASCIIWhitespace on every byte
+	{
+		irng := rand.New(rand.NewSource(r.Seed + 77))
+		var cs []string
+		for i := 0; i < r.N(60, 600); i++ {
+			n := irng.Intn(300)
+			if irng.Intn(8) == 0 {
+				n = 20000 + irng.Intn(30000)
+			}
+			cs = append(cs, string(c10Payload(irng, n)))
+		}
+		r.Independent("armor", "an armor encoder / decoder pair", cs, func(c string) string {
+			var buf bytes.Buffer
+			enc, err := NewArmorEncoder(&buf)
+			if err != nil {
+				return "enc-err"
+			}
+			half := len(c) / 2
+			enc.Write([]byte(c[:half]))
+			runtime.Gosched()
+			enc.Write([]byte(c[half:]))
+			enc.Close()
+			doc := append([]byte{}, buf.Bytes()...)
+			dec, err := NewArmorDecoder(bytes.NewReader(doc))
+			if err != nil {
+				return "dec-err " + vh.Hex(doc[:imin10(len(doc), 40)])
+			}
+			var out []byte
+			b := make([]byte, 777)
+			for {
+				n, err := dec.Read(b)
+				out = append(out, b[:n]...)
+				runtime.Gosched()
+				if err != nil {
+					break
+				}
+			}
+			return fmt.Sprintf("%d bytes of armor; decoded == payload: %v", len(doc), string(out) == c)
+		})
+	}
 	for b := 0; b < 256; b++ {
 		got := isASCIIWhitespace(byte(b))
 		line := fmt.Sprintf("c10 ws %d", b)
@@ -1279,4 +1318,11 @@ func c10Base64(r *vh.Run, rng *rand.Rand) {
 			r.OracleFail("b64-stream-roundtrip", line, vh.Hex(out)+" "+es, "streaming decode of a valid encoding must return the data for any chunking and read sizes")
 		}
 	}
+}
+
+func imin10(a, b int) int {
+	if a < b {
+		return a
+	}
+	return b
 }
